@@ -53,16 +53,106 @@ Definition P_C13 (tr : trace) : bool :=
                     | VAns running fresh => answer_eqb running fresh
                     end) tr.
 
+(* ---- second clause: a URL is accepted only for a backend it belongs to ------------------
+   "The set of backend URLs the server accepts, and the secret, limits and bitrates
+   tied to each, are exactly those a freshly started server would derive from the
+   final configuration."  What is derived from a configuration is said by its
+   documentation (server.conf.in): a backend is configured with the URL of a
+   Nextcloud instance, and the URLs of that instance are the configured URL itself
+   and everything below it.  "Below" stops at a path-segment boundary:
+   https://cloud/nextcloud-test is not below https://cloud/nextcloud.  As strings:
+   the configured URL with a "/" appended unless it ends in one (a standard port
+   written out is dropped, as for the looked-up URL) is a prefix of the looked-up
+   URL with a "/" appended unless it ends in one.
+
+   The code meets this since fixes/C13/07 (getBackendLocked matches only where the
+   configured URL ends in "/" or the looked-up URL continues with "/"): theorems
+   C13_static_owner_trace and C13_etcd_owner_trace, every history.
+
+   P_C13 alone compares the running server with a freshly started one; a lookup
+   that is wrong in both in the same way passes it.  This clause looks at every
+   accepted answer - of the running and of the fresh instance - by itself: the
+   backend named by the answer must be configured, in the final configuration,
+   with a URL the looked-up URL belongs to.  The compat backend of the deprecated
+   modes (no URL) is not judged. *)
+Section Owner.
+Context (up : string -> option purl).
+
+(* the configured URL as the clause reads it: slash-terminated, standard port dropped *)
+Definition spec_url (cu : string) : option string :=
+  let u := add_slash cu in
+  match up u with
+  | Some p => Some (add_slash (if normalised p then p_nstr p else u))
+  | None => None
+  end.
+
+Definition belongs_to (cu : string) (p : purl) : bool :=
+  match spec_url cu with
+  | Some c => String.prefix c (add_slash (n_str p))
+  | None => false
+  end.
+
+Definition owner_ok (urls : list (N * string)) (probe : string) (a : answer) : bool :=
+  match a with
+  | ASome x =>
+      let '(id, _, _, _, _, compat) := x in
+      compat ||
+      match up probe with
+      | None => false
+      | Some p => existsb (fun e => N.eqb (fst e) id && belongs_to (snd e) p) urls
+      end
+  | _ => true
+  end.
+
+Definition owner_out (urls : list (N * string)) (probe : string) (v : out) : bool :=
+  match v with
+  | VAns running fresh => owner_ok urls probe running && owner_ok urls probe fresh
+  | _ => true
+  end.
+
+(* id -> configured URL text, static storage: the sections of the ids of the `backends` list *)
+Definition cfg_urls (c : config) : list (N * string) :=
+  flat_map (fun id => match sec_get id (c_secs c) with Some s => [(id, s_url s)] | None => [] end) (c_ids c).
+(* ... etcd: the values etcd holds *)
+Definition kv_urls (kv : list (N * option einfo)) : list (N * string) :=
+  flat_map (fun e => match snd e with Some i => [(fst e, e_url i)] | None => [] end) kv.
+
+Fixpoint owner_static (cur : list (N * string)) (tr : trace) : bool :=
+  match tr with
+  | [] => true
+  | (o, v) :: r =>
+      match o with
+      | OInit c | OReload c => owner_static (cfg_urls c) r
+      | OProbe u => owner_out cur u v && owner_static cur r
+      | OEvent _ => owner_static cur r
+      end
+  end.
+
+Fixpoint owner_etcd (kv : list (N * option einfo)) (tr : trace) : bool :=
+  match tr with
+  | [] => true
+  | (o, v) :: r =>
+      match o with
+      | OEvent e => owner_etcd (match e with EPut k x => kv_set k x kv | EDel k => kv_del k kv end) r
+      | OProbe u => owner_out (kv_urls kv) u v && owner_etcd kv r
+      | _ => owner_etcd kv r
+      end
+  end.
+End Owner.
+
 (* ---- the model run over the same ops ------------------------------------------ *)
 Definition oracle (tbl : list (string * purl)) (s : string) : option purl :=
   match find (fun e => String.eqb (fst e) s) tbl with Some e => Some (snd e) | None => None end.
 
 Section Judge.
 Context (up : string -> option purl).
-(* which model: the repaired code (kinds 0, 1) or the code as it was (kinds 2, 3;
-   used once to validate the unrepaired model behind the `_refuted` theorems) *)
+(* which model: the repaired code (kinds 0, 1) or the code as it was before
+   fixes/C13/01..07 (kinds 2, 3; used to validate the unrepaired model behind the
+   `_refuted` theorems against the unrepaired code) *)
 Context (rl : sstate -> config -> option sstate).
 Context (estep : estate -> eop -> estate).
+(* ... and the lookup: with the path-segment boundary test (fixes/C13/07) or as it was *)
+Context (bfix : bool).
 
 (* static storage: running state (None after a panic / before OInit) and the last configuration *)
 Fixpoint diff_static (i : N) (st : option (sstate * config)) (tr : trace) : option N :=
@@ -78,7 +168,7 @@ Fixpoint diff_static (i : N) (st : option (sstate * config)) (tr : trace) : opti
           | None => if out_eqb v VPanic then diff_static (N.succ i) None r else Some i
           end
       | OProbe u, Some (s, c) =>
-          if out_eqb v (VAns (answer_of (lookup_static up s u)) (answer_of (lookup_static up (fresh up c) u)))
+          if out_eqb v (VAns (answer_of (lookup_static_with up bfix s u)) (answer_of (lookup_static_with up bfix (fresh up c) u)))
           then diff_static (N.succ i) st r else Some i
       | _, _ => Some i
       end
@@ -96,7 +186,7 @@ Fixpoint diff_etcd (i : N) (st : estate) (kv : list (N * option einfo)) (tr : tr
                  (match e with EPut k x => kv_set k x kv | EDel k => kv_del k kv end) r
           else Some i
       | OProbe u =>
-          if out_eqb v (VAns (answer_of (lookup_etcd up st u)) (answer_of (lookup_etcd up (fold_left estep (map (fun e => EPut (fst e) (snd e)) kv) einit) u)))
+          if out_eqb v (VAns (answer_of (lookup_etcd_with up bfix st u)) (answer_of (lookup_etcd_with up bfix (fold_left estep (map (fun e => EPut (fst e) (snd e)) kv) einit) u)))
           then diff_etcd (N.succ i) st kv r else Some i
       | _ => Some i
       end
@@ -153,14 +243,31 @@ Definition mkcase (id kind mode : N) (tbl : list (string * purl)) (tr : trace) :
   (id, kind, mode, tbl, tr).
 
 (* Verdict codes: 1 = model and implementation differ at that step,
-   2 = the implementation's own trace violates P_C13. *)
+   2 = the implementation's own trace violates P_C13,
+   4 = the implementation's own trace violates the second clause (an accepted URL
+       does not belong to the backend it was accepted for). *)
+Definition owner_clause (kind : N) (tbl : list (string * purl)) (tr : trace) : bool :=
+  match kind with
+  | 0%N | 2%N => owner_static (oracle tbl) [] tr
+  | _ => owner_etcd (oracle tbl) [] tr
+  end.
+
+(* the step at which a clause that holds on prefixes first fails (for the report only) *)
+Fixpoint first_fail (f : trace -> bool) (n k : nat) (tr : trace) : N :=
+  match n with
+  | O => N.of_nat k
+  | S n' => if f (firstn (S k) tr) then first_fail f n' (S k) tr else N.of_nat k
+  end.
+
 Definition judge (c : case) : list (N * N * N) :=
   let '(id, kind, mode, tbl, tr) := c in
+  (if (match mode with 0%N => true | _ => owner_clause kind tbl tr end) then []
+   else [(id, 4%N, first_fail (owner_clause kind tbl) (List.length tr) 0 tr)]) ++
   (match (match kind with
-          | 0%N => diff_static (oracle tbl) (reload (oracle tbl)) 0 None tr
-          | 1%N => diff_etcd (oracle tbl) (etcd_step (oracle tbl)) 0 einit [] tr
-          | 2%N => diff_static (oracle tbl) (reload_unrepaired (oracle tbl)) 0 None tr
-          | _ => diff_etcd (oracle tbl) (etcd_step_unrepaired (oracle tbl)) 0 einit [] tr
+          | 0%N => diff_static (oracle tbl) (reload (oracle tbl)) true 0 None tr
+          | 1%N => diff_etcd (oracle tbl) (etcd_step (oracle tbl)) true 0 einit [] tr
+          | 2%N => diff_static (oracle tbl) (reload_unrepaired (oracle tbl)) false 0 None tr
+          | _ => diff_etcd (oracle tbl) (etcd_step_unrepaired (oracle tbl)) false 0 einit [] tr
           end) with Some i => [(id, 1%N, i)] | None => [] end) ++
   (if (match mode with 0%N => true | _ => P_C13 tr end) then [] else [(id, 2%N, 0%N)]).
 
